@@ -93,6 +93,12 @@ class SkeletonComp(Component):
                "t3": {"enabled": rng.random() < 0.8},
                "t4": {"enabled": rng.random() < 0.85,
                       "cache": {"enabled": rng.random() < 0.8, "ttl_sec": rng.choice([0, 300, 600, 600])}}}
+        if i % 4 == 1:
+            # scheduler on, only LOGICAL budgets can fire: quantum/wall far beyond any scripted elapsed value, so the
+            # yield decisions are clock independent and ANY canonical difference between the two clocks is a violation
+            cfg["scheduler"] = {"enabled": True, "quantum_ms": 10 ** 15,
+                                "budgets": {"wall_ms": rng.choice([None, 10 ** 15]), "t1_iters": bud([None, 2, 3]),
+                                            "t1_pops": bud([4, 5, 5]), "t2_k": bud([None, 2, 3]), "t3_ops": bud([None, 1, 2])}}
         n = rng.choice([1, 2, 3, 5])
         turns = []
         for k in range(n):
@@ -165,6 +171,8 @@ class SkeletonComp(Component):
         for k in ("t3On", "t4On", "cacheOn"):
             if not io["cfg"][k]:
                 t.add("off:" + k)
+        if io["cfg"]["schedOn"] and io["cfg"]["quantumMs"] >= 10 ** 12 and any(x.startswith("yield:") for x in t):
+            t.add("logical_yield_only")
         return sorted(t) or ["default"]
 
 
@@ -230,6 +238,12 @@ class NormComp(Component):
 
     def gen(self, rng: random.Random, i: int) -> dict:
         o = lambda xs: rng.choice(xs)  # noqa: E731
+        if i % 4 == 0:
+            # yielded turn records (what run_turn writes on a slice-budget yield) carrying real timings
+            return {"ci": rng.random() < 0.9,
+                    "rec": {"s": "turn", "id": [rng.randrange(5)], "ms": o([None, 7, 250]), "now": o([None, 1, 1]),
+                            "durs": o([[1, 2, 3, 4, 5], [12, 0, 0, 0, 31], [0, 0, 0, 0, 9]]), "y": True,
+                            "sl": o([1, 4, None]), "cms": None}}
         return {"ci": rng.random() < 0.8,
                 "rec": {"s": o(list(FILES)), "id": [rng.randrange(5)], "ms": o([None, 0, 3, 250]), "now": o([None, 1]),
                         "durs": o([None, [1, 2, 3, 4, 5], [0, 0, 0, 0, 0], []]), "y": o([None, True, False]),
@@ -268,7 +282,8 @@ class NormComp(Component):
             keep = copy.deepcopy(src)
             out = normalize_for_identity(FILES[case["rec"]["s"]], src)
             twice = normalize_for_identity(FILES[case["rec"]["s"]], copy.deepcopy(out))
-            return {"out": self.from_py(case["rec"]["s"], out), "idem": twice == out, "pure": src == keep}
+            return {"out": self.from_py(case["rec"]["s"], out), "idem": twice == out, "pure": src == keep,
+                    "extra_keys": sorted(set(out) - set(src))}
         finally:
             if old is None:
                 os.environ.pop("CI", None)
@@ -283,8 +298,13 @@ class NormComp(Component):
             io = io["out"]
         return super().compare(case, io, mo)
 
+    def monitor_requests(self, case, io):
+        # the Lean predicate `normOkB` (theorem C01_normalize_ok: the model satisfies it) evaluated on the REAL output
+        return [("normalize_erases_volatile", {"c": "c01.norm_ok", "ci": case["ci"], "inp": case["rec"], "out": io["out"]})]
+
     def monitors(self, case, io):
-        return [("normalize_idempotent", bool(io["idem"]), "normalize_for_identity(normalize_for_identity(r)) != normalize_for_identity(r)"),
+        return [("normalize_adds_no_keys", not io["extra_keys"], f"normalize_for_identity added keys {io['extra_keys']}"),
+                ("normalize_idempotent", bool(io["idem"]), "normalize_for_identity(normalize_for_identity(r)) != normalize_for_identity(r)"),
                 ("normalize_pure", bool(io["pure"]), "normalize_for_identity mutated its argument")]
 
     def tags(self, case, io):
@@ -294,6 +314,8 @@ class NormComp(Component):
             t.append("identity")
         if r["s"] == "turn" and r["y"]:
             t.append("yielded")
+            if case["ci"] and r["durs"] and any(r["durs"]):
+                t.append("yielded_nonzero_durations")
         if not case["ci"]:
             t.append("ci_off")
         return t or ["default"]
@@ -316,7 +338,7 @@ def _iso(ms: int) -> str:
     return _dt.datetime.fromtimestamp(ms / 1000.0, tz=_dt.timezone.utc).isoformat()
 
 
-def gen_world(rng: random.Random) -> dict:
+def gen_world(rng: random.Random, logical_sched: bool = False) -> dict:
     nn = rng.choice([3, 4, 5, 8])
     words = rng.sample(WORDS, nn)
     nodes = [[f"n:{w}", w] for w in words]
@@ -351,6 +373,15 @@ def gen_world(rng: random.Random) -> dict:
                   "promotion": {"enabled": rng.random() < 0.3}},
         "scheduler": {"enabled": sched},
     }
+    if logical_sched:
+        # scheduler on; only LOGICAL slice budgets can fire (t1_pops/t1_iters/t2_k/t3_ops are compared with `==`, small values
+        # are hit by these worlds); quantum_ms/wall_ms are far beyond anything the adversarial clocks of `LOGICAL_CLOCKS` reach,
+        # so every yield decision is clock independent and the replays must be byte-identical
+        sched = True
+        cfg["scheduler"] = {"enabled": True, "quantum_ms": 10 ** 15,
+                            "budgets": {"wall_ms": 10 ** 15, "t1_pops": rng.choice([None, 2, 3, 5, 7]),
+                                        "t1_iters": rng.choice([None, 1, 2, 3]), "t2_k": rng.choice([None, 1, 2, 3]),
+                                        "t3_ops": rng.choice([1, 2, 2])}}
     if rng.random() < 0.3:
         cfg["t3"] = {"allow_reflection": True}
     if rng.random() < 0.2:
@@ -365,7 +396,13 @@ def gen_world(rng: random.Random) -> dict:
     for i in range(nt):
         ms = BASE_MS + 1000 * i
         turns.append({"agent": rng.choice(agents), "text": rng.choice(texts), "now_ms": ms, "now": _iso(ms)})
-    return {"spec": spec, "turns": turns, "sched": sched}
+    return {"spec": spec, "turns": turns, "sched": sched, "logical_sched": logical_sched}
+
+
+#: clocks for the logical-budget scheduler cases: per-reading steps of 0.05-0.5 s (tens of seconds per turn at most,
+#: nowhere near quantum_ms = wall_ms = 1e15 ms), forwards, backwards, random, and the real clock
+LOGICAL_CLOCKS = [{"kind": "jump", "step": 0.137}, {"kind": "back", "step": 0.05}, {"kind": "chaos", "step": 0.5, "seed": 11},
+                  {"kind": "real"}]
 
 
 def variants_for(rng: random.Random, case: dict, tier: str) -> Tuple[dict, List[dict]]:
@@ -373,6 +410,10 @@ def variants_for(rng: random.Random, case: dict, tier: str) -> Tuple[dict, List[
     quantum_ms: that nondeterminism IS the known finding; the const clock makes the other comparisons meaningful)."""
     bclk = {"kind": "const"} if case["sched"] else {"kind": "real"}
     base = {"name": "base", "hashseed": 0, "clock": bclk, "warm": 0}
+    if case.get("logical_sched"):
+        vs = [{"name": "clock:" + c["kind"], "hashseed": 0, "clock": c, "warm": 0} for c in LOGICAL_CLOCKS]
+        vs.append({"name": "hash", "hashseed": rng.randrange(2, 2 ** 31), "clock": bclk, "warm": 0})
+        return base, vs
     hs = [1, rng.randrange(2, 2 ** 31)]
     clocks = [{"kind": "const", "t0": 1.0e6}, {"kind": "creep"}, {"kind": "jump", "step": 50.0}, {"kind": "jump", "step": 4.0e7, "t0": 1.0e9},
               {"kind": "back", "step": 1000.0}, {"kind": "chaos", "step": 1.0e5, "seed": rng.randrange(1000)}]
@@ -482,23 +523,30 @@ def clock_perturbed(variant: dict) -> bool:
     return variant["clock"].get("kind") in ("jump", "back", "chaos")
 
 
-def ablate(case: dict) -> dict:
-    """the same case with every cache (T1/T2 stage caches, turn-level t2:semantic cache) and the scheduler switched off"""
+def _set(case: dict, path: List[str], val) -> dict:
     c = copy.deepcopy(case)
-    cfg = c["spec"].setdefault("cfg", {})
-    cfg.setdefault("t1", {}).setdefault("cache", {})["enabled"] = False
-    cfg.setdefault("t2", {}).setdefault("cache", {})["enabled"] = False
-    cfg.setdefault("t4", {}).setdefault("cache", {})["enabled"] = False
-    cfg.setdefault("scheduler", {})["enabled"] = False
+    d = c["spec"].setdefault("cfg", {})
+    for k in path[:-1]:
+        d = d.setdefault(k, {})
+    d[path[-1]] = val
+    return c
+
+
+def caches_off(case: dict) -> dict:
+    """every cache (T1/T2 stage caches, turn-level t2:semantic cache) off; the scheduler is left as it is"""
+    c = _set(case, ["t1", "cache", "enabled"], False)
+    c = _set(c, ["t2", "cache", "enabled"], False)
+    return _set(c, ["t4", "cache", "enabled"], False)
+
+
+def sched_off(case: dict) -> dict:
+    c = _set(case, ["scheduler", "enabled"], False)
     c["sched"] = False
     return c
 
 
-def ablate2(case: dict) -> dict:
-    """stage 2: additionally gate reflection off (its post-hoc wall budget `time_ms_reflection` drops the memory entries)"""
-    c = ablate(case)
-    c["spec"]["cfg"].setdefault("t3", {})["allow_reflection"] = False
-    return c
+def reflection_off(case: dict) -> dict:
+    return _set(case, ["t3", "allow_reflection"], False)
 
 
 def has_reflection(case: dict) -> bool:
@@ -509,12 +557,58 @@ def needs_ablation(case: dict, variant: dict) -> bool:
     return variant.get("warm", 0) > 0 or clock_perturbed(variant)
 
 
-def known_class(case: dict, variant: dict) -> str:
-    if variant.get("warm", 0) > 0 and not clock_perturbed(variant):
-        return "C01:warm-process:stage-cache"
-    if case["sched"]:
-        return "C01:wallclock:scheduler-yield"
-    return "C01:wallclock:cache-ttl"
+def yield_signature(res: dict) -> list:
+    """the YIELD DECISIONS of one execution: per turn record (turn, agent, yielded, yield_reason) and per scheduler event
+    (turn, agent, reason, stage_end) — what `_should_yield` decided, independent of how long anything took"""
+    sig: list = []
+    try:
+        for l in bytes.fromhex(res["logs"].get("turn.jsonl", "")).decode().splitlines():
+            r = json.loads(l)
+            sig.append(["turn", r.get("turn"), r.get("agent"), bool(r.get("yielded")), r.get("yield_reason")])
+        for l in bytes.fromhex(res["logs"].get("scheduler.jsonl", "")).decode().splitlines():
+            r = json.loads(l)
+            sig.append(["sched", r.get("turn"), r.get("agent"), r.get("reason"), r.get("stage_end")])
+    except Exception:
+        sig.append(["unparsable"])
+    return sig
+
+
+def attribute(scratch: Path, case: dict, base_v: dict, v: dict, base: dict, var: dict, diffs: list):
+    """ATTRIBUTION BY ABLATION, one explanation at a time.  A difference is filed under a known class only if
+      1. it vanishes with every cache off                                  -> warm-process / cache-ttl
+      2. the two runs made DIFFERENT YIELD DECISIONS (yield_signature) and it vanishes with the scheduler off
+                                                                           -> scheduler-yield
+         (a scheduler that is merely ON, with identical decisions in both runs, explains nothing)
+      3. reflection is on, the clock is perturbed and it vanishes with reflection off -> reflection-timeout
+    Whatever survives is a fresh violation, reported on the ablated (smaller) case.
+    Returns (key | None, case, base variant, diffs, note, subprocesses used)."""
+    cur, bv, d, rb, rv, used = case, base_v, diffs, base, var, 0
+
+    def rerun(c, b):
+        nonlocal used
+        used += 2
+        x, y = run_worker(scratch, c, b), run_worker(scratch, c, v)
+        return x, y, diff_obs(x, y)
+    c1 = caches_off(cur)
+    x, y, d1 = rerun(c1, bv)
+    if not d1:
+        key = "C01:warm-process:stage-cache" if (v.get("warm", 0) > 0 and not clock_perturbed(v)) else "C01:wallclock:cache-ttl"
+        return key, case, base_v, diffs, "vanishes with every cache off", used
+    cur, d, rb, rv = c1, d1, x, y
+    if cur["sched"] and clock_perturbed(v) and yield_signature(rb) != yield_signature(rv):
+        c2 = sched_off(cur)
+        b2 = dict(bv, clock={"kind": "real"})
+        x, y, d2 = rerun(c2, b2)
+        if not d2:
+            return "C01:wallclock:scheduler-yield", cur, bv, d, "the runs differ in a yield decision; vanishes with the scheduler off", used
+        cur, bv, d, rb, rv = c2, b2, d2, x, y
+    if clock_perturbed(v) and has_reflection(cur):
+        c3 = reflection_off(cur)
+        x, y, d3 = rerun(c3, bv)
+        if not d3:
+            return "C01:wallclock:reflection-timeout", cur, bv, d, "vanishes with reflection gated off", used
+        cur, d = c3, d3
+    return None, cur, bv, d, "survives every ablation", used
 
 
 def fresh_keys(variant: dict, diffs: List[Tuple[str, str, List[str]]]) -> List[Tuple[str, str]]:
@@ -549,6 +643,8 @@ def _nontrivial_tags(case: dict, base: dict) -> List[str]:
             t.add("snapshot")
         if "scheduler.jsonl" in base["logs"]:
             t.add("sched_yield")
+            if case.get("logical_sched"):
+                t.add("logical_budget_yield")
         if "gel.jsonl" in base["logs"]:
             t.add("gel")
         if ((case["spec"].get("cfg") or {}).get("perf") or {}).get("enabled"):
@@ -570,7 +666,7 @@ def run_e2e(ctx: Ctx, comp: E2EComp, n: int) -> None:
     for c in ctx.load_corpus(comp.name):
         cases.append((c["case"], c["base"], [c["variant"]]))
     for i in range(n):
-        case = comp.gen(rng, i)
+        case = gen_world(rng, logical_sched=True) if i % 3 == 2 else comp.gen(rng, i)
         base, vs = variants_for(rng, case, tier)
         cases.append((case, base, vs))
     for ci, (case, base, vs) in enumerate(cases):
@@ -615,65 +711,32 @@ def run_e2e(ctx: Ctx, comp: E2EComp, n: int) -> None:
                     deferred.append(({"case": case, "base": base_v, "variant": v},
                                      f"variant {v['name']} (hashseed {v['hashseed']}, clock {v['clock']}, warm {v['warm']}): {detail}",
                                      {"diffs": [list(d) for d in diffs]}, key))
-    abl_jobs = []
-    for pi, (ci, v, _) in enumerate(pending):
-        ac = ablate(cases[ci][0])
-        bv = dict(cases[ci][1], clock={"kind": "real"})
-        abl_jobs.append((pi, "base", ac, bv))
-        abl_jobs.append((pi, "var", ac, v))
-    abl: Dict[Tuple[int, str], dict] = {}
-    with cf.ThreadPoolExecutor(max_workers=workers) as ex:
-        futs = {ex.submit(run_worker, ctx.scratch, ac, vv): (pi, w) for (pi, w, ac, vv) in abl_jobs}
-        for f in cf.as_completed(futs):
-            abl[futs[f]] = f.result()
     attributed: Dict[str, int] = {}
-    stage2 = []
-    d2s: Dict[int, list] = {}
-    for pi, (ci, v, diffs) in enumerate(pending):
-        d2s[pi] = diff_obs(abl[(pi, "base")], abl[(pi, "var")])
-        if d2s[pi] and clock_perturbed(v) and has_reflection(cases[ci][0]):
-            stage2.append(pi)
-    abl2: Dict[Tuple[int, str], dict] = {}
+    abl_used = 0
     with cf.ThreadPoolExecutor(max_workers=workers) as ex:
         futs = {}
-        for pi in stage2:
-            ci, v, _ = pending[pi]
-            ac2 = ablate2(cases[ci][0])
-            futs[ex.submit(run_worker, ctx.scratch, ac2, dict(cases[ci][1], clock={"kind": "real"}))] = (pi, "base")
-            futs[ex.submit(run_worker, ctx.scratch, ac2, v)] = (pi, "var")
-        for f in cf.as_completed(futs):
-            abl2[futs[f]] = f.result()
+        for pi, (ci, v, diffs) in enumerate(pending):
+            runs = by_case[ci]
+            var_res = next(r for vv, r in runs[1:] if vv is v)
+            futs[ex.submit(attribute, ctx.scratch, cases[ci][0], cases[ci][1], v, runs[0][1], var_res, diffs)] = pi
+        outcome = {futs[f]: f.result() for f in cf.as_completed(futs)}
     for pi, (ci, v, diffs) in enumerate(pending):
-        case, base_v, _ = cases[ci]
-        ac = ablate(case)
-        bv = dict(base_v, clock={"kind": "real"})
-        d2 = d2s[pi]
+        key, acase, abase, adiffs, note, used = outcome[pi]
+        abl_used += used
         desc = f"variant {v['name']} (hashseed {v['hashseed']}, clock {v['clock']}, warm {v['warm']})"
-        if not d2:
-            key = known_class(case, v)
+        if key is not None:
             attributed[key] = attributed.get(key, 0) + 1
-            ctx.monitor_fail(comp.name, "byte_identical_replay", {"case": case, "base": base_v, "variant": v},
-                             desc + ": " + "; ".join(f"{n} {f}" for _, n, f in diffs)[:300] + " — vanishes with caches+scheduler off",
-                             {"diffs": [list(d) for d in diffs]}, key=key)
-            continue
-        if pi in stage2:
-            d3 = diff_obs(abl2[(pi, "base")], abl2[(pi, "var")])
-            if not d3:
-                key = "C01:wallclock:reflection-timeout"
-                attributed[key] = attributed.get(key, 0) + 1
-                ctx.monitor_fail(comp.name, "byte_identical_replay", {"case": ac, "base": bv, "variant": v},
-                                 desc + " caches+scheduler off: " + "; ".join(f"{n} {f}" for _, n, f in d2)[:300]
-                                 + " — vanishes with reflection gated off", {"diffs": [list(d) for d in d2]}, key=key)
-                continue
-            ac, d2 = ablate2(case), d3
-        for key, detail in fresh_keys(v, d2):
-            ctx.monitor_fail(comp.name, "byte_identical_replay", {"case": ac, "base": bv, "variant": v},
-                             desc + f" with every cache, the scheduler (and reflection) OFF: {detail}",
-                             {"diffs": [list(d) for d in d2]}, key=key)
+            ctx.monitor_fail(comp.name, "byte_identical_replay", {"case": acase, "base": abase, "variant": v},
+                             desc + ": " + "; ".join(f"{n} {f}" for _, n, f in adiffs)[:300] + " — " + note,
+                             {"diffs": [list(d) for d in adiffs]}, key=key)
+        else:
+            for k2, detail in fresh_keys(v, adiffs):
+                ctx.monitor_fail(comp.name, "byte_identical_replay", {"case": acase, "base": abase, "variant": v},
+                                 desc + f" ({note}): {detail}", {"diffs": [list(d) for d in adiffs]}, key=k2)
     for c_, detail_, io_, key_ in deferred:
         ctx.monitor_fail(comp.name, "byte_identical_replay", c_, detail_, io_, key=key_)
     ctx.extra.setdefault("e2e", {})["attributed_by_ablation"] = attributed
-    ctx.extra["e2e"]["ablation_subprocesses"] = len(abl_jobs) + 2 * len(stage2)
+    ctx.extra["e2e"]["ablation_subprocesses"] = abl_used
     ctx.extra.setdefault("e2e", {})["variant_runs"] = hist
     ctx.extra["e2e"]["subprocesses"] = len(jobs)
 
@@ -819,22 +882,9 @@ def replay(ctx: Ctx, rec: dict) -> int:
             print(f"REPLAY e2e difference {d[0]} {d[1]} fields={d[2]}")
         keys: List[str] = []
         if diffs and needs_ablation(c["case"], c["variant"]):
-            ac = ablate(c["case"])
-            rb = dict(c["base"], clock={"kind": "real"})
-            d2 = diff_obs(run_worker(ctx.scratch, ac, rb), run_worker(ctx.scratch, ac, c["variant"]))
-            if not d2:
-                keys = [known_class(c["case"], c["variant"])]
-                print("REPLAY e2e the difference vanishes with caches+scheduler off")
-            elif clock_perturbed(c["variant"]) and has_reflection(c["case"]):
-                ac2 = ablate2(c["case"])
-                d3 = diff_obs(run_worker(ctx.scratch, ac2, rb), run_worker(ctx.scratch, ac2, c["variant"]))
-                if not d3:
-                    keys = ["C01:wallclock:reflection-timeout"]
-                    print("REPLAY e2e the difference vanishes with reflection gated off")
-                else:
-                    keys = [k for k, _ in fresh_keys(c["variant"], d3)]
-            else:
-                keys = [k for k, _ in fresh_keys(c["variant"], d2)]
+            key, _, _, adiffs, note, _ = attribute(ctx.scratch, c["case"], c["base"], c["variant"], base, var, diffs)
+            print(f"REPLAY e2e attribution: {note}")
+            keys = [key] if key is not None else [k for k, _ in fresh_keys(c["variant"], adiffs)]
         elif diffs:
             keys = [k for k, _ in fresh_keys(c["variant"], diffs)]
         for k in keys:
